@@ -57,7 +57,7 @@ theorem step1_refuse_frame (retry : Cl → Option (Cl × Res)) (nx : Nat) (c : C
             · exact frame_fail c e
             · unfold processCommit
               split
-              · intro _; simp [recordFailure, setRec, proj, withSecret, ensureSecret_fields]
+              · intro _; simp [recordFailure, setRec, proj, withSecret, ensureSecret_fields, ensureSecret_data]
               · intro h; simp [isRefusal] at h
       · -- leave
         split
@@ -99,9 +99,9 @@ theorem refuse_frame_partial (fuel nx : Nat) (c : Cl) (e : Ev) (hs : Synced c.g)
     the receiver roll back first and reject afterwards (signature `rollback-before-authorisation`) -/
 
 def wClient : Cl := initCl 2 false 5 [0, 1, 2] [0] 1
-def wGood : Ev := { n := 1, ts := 20, idnum := 7, cipher := 1, sender := 0, path := [], kind := .commit (.setName 5) [] }
+def wGood : Ev := { n := 1, ts := 20, idnum := 7, cipher := 1, sender := 0, path := [], kind := .commit (.setData { initData [0] 1 with name := 5 }) [] }
 /-- built by the non-admin member 1 with OpenMLS directly, wrapper timestamp earlier than `wGood` -/
-def wEvil : Ev := { n := 2, ts := 10, idnum := 9, cipher := 2, sender := 1, path := [], kind := .commit (.setName 6) [] }
+def wEvil : Ev := { n := 2, ts := 10, idnum := 9, cipher := 2, sender := 1, path := [], kind := .commit (.setData { initData [0] 1 with name := 6 }) [] }
 def wAfterGood : Cl := (deliver wClient wGood 0).1
 
 theorem witness_rollback_then_reject :
